@@ -106,6 +106,19 @@ Theorem C20_weighted_sum_value :
     exists q, ws_spec (u0 :: us) src n t = Ok q /\ (q * u0 == sum3 (u0 :: us) vs ws)%Q.
 Proof. exact ws_spec_is_sum. Qed.
 
+(** Served on demand without failures of their own (the component-level half of "the scheduling
+    guarantee of C01 extends through pull-based components"): if every input of the WeightedSum
+    answers for time [t] - which is what C01 guarantees at the producers - the memo-free result for
+    [t] is a value, not an error; and a request through an adapter chain fails only if the provider
+    fails for [chain_time c t]. *)
+Theorem C20_pull_through_no_new_errors :
+  (forall (units : list Q) (src : nat -> Z -> res Q) (n : nat) (t : Z),
+      (forall i, (i < n)%nat -> exists q, src i t = Ok q) -> exists q, ws_spec units src n t = Ok q)
+  /\ (forall (c : list (nat * adapter)) (id : nat) (f : Z -> res Q) (log : list (nat * Z)) (t : Z),
+         (exists q, f (chain_time c t) = Ok q) ->
+         exists q, snd (pull_chain (logging_provider id f) (fun _ _ s => s) c log t) = Ok q).
+Proof. split; [exact ws_spec_no_new_errors|exact pull_chain_no_new_errors]. Qed.
+
 (* ------------------------------------------------------------------------- *)
 (** Non-vacuity *)
 
@@ -160,6 +173,13 @@ Example C20_weighted_sum_value_nonvacuous :
   /\ (sum3 ex_units [inject_Z 4; inject_Z 8] [(1 # 2)%Q; (1 # 4)%Q] == (2002 # 1000))%Q.
 Proof. split; vm_compute; reflexivity. Qed.
 
+Example C20_pull_through_nonvacuous :
+  (forall i, (i < 4)%nat -> exists q, ex_src i 4 = Ok q) /\ ws_spec ex_units ex_src 4 4 = Ok (2002 # 1)%Q.
+Proof.
+  split; [|vm_compute; reflexivity].
+  intros i Hi. destruct i as [|[|[|[|i]]]]; simpl; eexists; reflexivity.
+Qed.
+
 Print Assumptions C20_static_output.
 Print Assumptions C20_static_input.
 Print Assumptions C20_callback_time.
@@ -168,3 +188,4 @@ Print Assumptions C20_weighted_sum_pulls.
 Print Assumptions C20_weighted_sum.
 Print Assumptions C20_weighted_sum_memo_refines.
 Print Assumptions C20_weighted_sum_value.
+Print Assumptions C20_pull_through_no_new_errors.
